@@ -387,6 +387,185 @@ impl<'a> StagesBuilder<'a> {
     }
 }
 
+#[cfg(feature = "verif-hooks")]
+#[allow(missing_docs)]
+#[derive(Clone, Copy, Debug, Eq, PartialEq)]
+pub enum VerifTarget {
+    Stage(usize),
+    Group(usize, usize),
+    NewStage,
+}
+
+#[cfg(feature = "verif-hooks")]
+#[allow(missing_docs)]
+#[derive(Clone, Copy, Debug, Eq, PartialEq)]
+pub enum VerifConflict {
+    None,
+    Single(usize),
+    Multiple,
+}
+
+/// Verification hooks: direct construction / inspection of the executed layout.
+#[cfg(feature = "verif-hooks")]
+#[allow(missing_docs)]
+impl<'a> Stage<'a> {
+    pub fn verif_new() -> Self {
+        Stage::new()
+    }
+
+    pub fn verif_push_group(&mut self) {
+        self.groups.push(ArrayVec::new());
+    }
+
+    pub fn verif_push(&mut self, group: usize, sys: SystemExecSend<'a>) {
+        self.groups[group].push(sys);
+    }
+
+    pub fn verif_num_groups(&self) -> usize {
+        self.groups.len()
+    }
+
+    pub fn verif_group_len(&self, group: usize) -> usize {
+        self.groups[group].len()
+    }
+}
+
+/// Verification hooks: construction of an arbitrary table state, read-only
+/// accessors to the five tables and thin forwards to the private planner
+/// functions (a change of the real function is seen through the forward).
+#[cfg(feature = "verif-hooks")]
+#[allow(missing_docs)]
+impl<'a> StagesBuilder<'a> {
+    pub fn verif_with_capacity(n: usize) -> Self {
+        StagesBuilder {
+            barrier: 0,
+            ids: Vec::with_capacity(n),
+            reads: Vec::with_capacity(n),
+            running_time: Vec::with_capacity(n),
+            stages: Vec::with_capacity(n),
+            writes: Vec::with_capacity(n),
+        }
+    }
+
+    pub fn verif_add_stage(&mut self) {
+        self.add_stage();
+    }
+
+    pub fn verif_add_group(&mut self, stage: usize) {
+        self.add_group(stage);
+    }
+
+    /// Puts one (id, boxed system) pair into a slot, without touching the
+    /// access tables.
+    pub fn verif_push_slot(&mut self, stage: usize, group: usize, id: SystemId, sys: SystemExecSend<'a>) {
+        self.ids[stage][group].push(id);
+        self.stages[stage].groups[group].push(sys);
+    }
+
+    pub fn verif_push_id(&mut self, stage: usize, group: usize, id: SystemId) {
+        self.ids[stage][group].push(id);
+    }
+
+    pub fn verif_push_read(&mut self, stage: usize, group: usize, r: ResourceId) {
+        self.reads[stage][group].push(r);
+    }
+
+    pub fn verif_push_write(&mut self, stage: usize, group: usize, w: ResourceId) {
+        self.writes[stage][group].push(w);
+    }
+
+    pub fn verif_set_time(&mut self, stage: usize, group: usize, t: u8) {
+        self.running_time[stage][group] = t;
+    }
+
+    pub fn verif_set_barrier(&mut self, barrier: usize) {
+        self.barrier = barrier;
+    }
+
+    pub fn verif_barrier(&self) -> usize {
+        self.barrier
+    }
+
+    /// Lengths of the five parallel tables (ids, reads, running_time, stages, writes).
+    pub fn verif_table_lens(&self) -> [usize; 5] {
+        [
+            self.ids.len(),
+            self.reads.len(),
+            self.running_time.len(),
+            self.stages.len(),
+            self.writes.len(),
+        ]
+    }
+
+    /// Number of groups of `stage` in each of the five tables.
+    pub fn verif_stage_lens(&self, stage: usize) -> [usize; 5] {
+        [
+            self.ids[stage].len(),
+            self.reads[stage].len(),
+            self.running_time[stage].len(),
+            self.stages[stage].groups.len(),
+            self.writes[stage].len(),
+        ]
+    }
+
+    pub fn verif_ids(&self, stage: usize, group: usize) -> &[SystemId] {
+        &self.ids[stage][group]
+    }
+
+    pub fn verif_reads(&self, stage: usize, group: usize) -> &[ResourceId] {
+        &self.reads[stage][group]
+    }
+
+    pub fn verif_writes(&self, stage: usize, group: usize) -> &[ResourceId] {
+        &self.writes[stage][group]
+    }
+
+    pub fn verif_time(&self, stage: usize, group: usize) -> u8 {
+        self.running_time[stage][group]
+    }
+
+    /// Number of boxed systems really stored in the executed list at the slot.
+    pub fn verif_exec_len(&self, stage: usize, group: usize) -> usize {
+        self.stages[stage].groups[group].len()
+    }
+
+    pub fn verif_insertion_target(
+        &self,
+        reads: &[ResourceId],
+        writes: &[ResourceId],
+        dep: &mut SmallVec<[SystemId; 4]>,
+        time: RunningTime,
+    ) -> VerifTarget {
+        match self.insertion_target(reads, writes, dep, time) {
+            InsertionTarget::Stage(s) => VerifTarget::Stage(s),
+            InsertionTarget::Group(s, g) => VerifTarget::Group(s, g),
+            InsertionTarget::NewStage => VerifTarget::NewStage,
+        }
+    }
+
+    pub fn verif_find_conflict(
+        &self,
+        stage: usize,
+        reads: &[ResourceId],
+        writes: &[ResourceId],
+        dep: &SmallVec<[SystemId; 4]>,
+    ) -> VerifConflict {
+        match Self::find_conflict(&self.ids, &self.reads, &self.writes, stage, reads, writes, dep) {
+            Conflict::None => VerifConflict::None,
+            Conflict::Single(g) => VerifConflict::Single(g),
+            Conflict::Multiple => VerifConflict::Multiple,
+        }
+    }
+
+    pub fn verif_improves_balance(&self, stage: usize, group: usize, new_time: u8) -> bool {
+        self.improves_balance(stage, group, new_time)
+    }
+
+    pub fn verif_remove_ids(&self, stage: usize, dep: &mut SmallVec<[SystemId; 4]>) {
+        self.remove_ids(stage, dep)
+    }
+}
+
 #[cfg(test)]
 mod tests {
     use super::*;
